@@ -31,7 +31,10 @@ CFG = {
     "rule": "quick: generated two-agent scenarios (1-3 candidates per side, NAT on one candidate, reachability matrices with one-way "
             "links, late signalling, random {tick, deliver, drop, duplicate, advance, restart, close} schedules followed by a fair "
             "loss-free suffix) executed on two real agents and on the model, outputs compared line by line, spec monitor on the "
-            "implementation's outputs; thorough: more and longer scenarios. Distinct = distinct (operation, output) lines; "
+            "implementation's outputs; one session in ten is a directed renomination scenario (renomDirected, six cycled variants) "
+            "ending in a long fair suffix and 'mark quiesced', where the monitor demands mirror-image selections once the exchange "
+            "of the highest nomination completed (AgentMonC20: agreement and settling clauses, reported under C01 as well); "
+            "thorough: more and longer scenarios. Distinct = distinct (operation, output) lines; "
             "non-trivial = output other than bad-op/ended.",
     "translated": [],
     "trusted_base": ["IceModel.AgentCore and IceModel.Sys2 are hand-written models (tie: correspondence C)",
